@@ -84,6 +84,17 @@ def canonDB (uuids : List Nat) (keys : List String) (db : DB) : String :=
   let parts := us.filterMap fun u => (db u).map fun t => s!"{u}{canonTask keys t}"
   "[" ++ ";".intercalate parts ++ "]"
 
+/-- Tabulate a task set over the finite universe the driver knows (every uuid and key that has
+    appeared in the input).  A definition that returns a function is compiled with its full arity,
+    so `let`-bound work inside it is redone on every lookup; the drivers therefore re-tabulate the
+    model's task sets into *data* after every step and continue from `dbOfTable table`, which is the
+    same function on the universe.  Trusted driver code (outputs are only computed on the universe). -/
+def tabulate (uuids : List Nat) (keys : List String) (db : DB) : List (Nat × List (String × String)) :=
+  uuids.filterMap fun u => (db u).map fun t => (u, keys.filterMap fun k => (t k).map fun v => (k, v))
+
+def dbOfTable (table : List (Nat × List (String × String))) : DB :=
+  fun u => (table.find? (·.1 == u)).map fun p => TaskMap.ofList p.2
+
 /-- protocol rendering of an operation (the same token syntax as the `C` lines) -/
 def opToks : SyncOp → String
   | .create u => s!"create {u}"
